@@ -4,6 +4,7 @@ import io
 
 import numpy as np
 
+from .. import forms as vforms
 from .. import imgcfg
 from ..util import arr_snapshot
 
@@ -65,6 +66,18 @@ def gen_dataset(rng, lo, hi, pmax, k=None, degenerate=None):
     return out
 
 
+def gen_dataset_narrow(rng):
+    """a collection in a narrow integer dtype whose values cover most of the dtype's range (int8 / uint8): what fit learns from
+    it must be what it learns from the float64 arrays of the same values"""
+    dts = (np.int8, np.uint8)
+    dt = dts[int(rng.integers(0, 2))]
+    out_i, out_f = [], []
+    for _ in range(int(rng.integers(1, 4))):
+        ia, fa, dn = vforms.near_limit_int_diagram(rng, int(rng.integers(2, 6)), dtypes=(dt,))
+        out_i.append(ia); out_f.append(fa)
+    return out_i, out_f, np.dtype(dt).name
+
+
 def imager_public(P):
     return {"birth_range": tuple(P.birth_range), "pers_range": tuple(P.pers_range), "pixel_size": P.pixel_size,
             "resolution": tuple(P.resolution), "width": P.width, "height": P.height}
@@ -107,6 +120,20 @@ def imager_case(ctx, k, rng):
     ctx.ran()
     P = Imager(**ctor)
     extents = [(0.0, 1.0, 1.0), (0.2, 0.6, 0.5), (-1.0, 3.0, 2.0), (0.0, 2.0, 4.0), (1.0, 1.5, 0.3)]
+    if rng.random() < 0.08:
+        # representation of the data a fit learns from: narrow integer arrays vs float64 arrays of the same values
+        Xi, Xf, dn = gen_dataset_narrow(rng)
+        ctx.set_payload({"ctor": {"pixel_size": 16.0}, "fit_data": Xi, "dtype": dn})
+        try:
+            ctx.ran(4)
+            Pi, Pf = Imager(pixel_size=16.0, kernel_params={"sigma": 400.0}), Imager(pixel_size=16.0, kernel_params={"sigma": 400.0})
+            oi, of = Pi.fit_transform(Xi, skew=True), Pf.fit_transform(Xf, skew=True)
+            ctx.check("imager: fit on narrow integer arrays == fit on float64 arrays of the same values",
+                      close_pub(imager_public(Pi), imager_public(Pf), 1e-9 * 300) and imgs_close(oi, of, 1e-9 * 300), dtype=dn,
+                      int_fit=imager_public(Pi), float_fit=imager_public(Pf))
+        except Exception as e:
+            ctx.exception("imager: fit on narrow integer arrays == fit on float64 arrays of the same values", e, dtype=dn)
+        ctx.set_payload({"ctor": {"pixel_size": ps0, "kernel": kdesc}, "history": log})
     last_fit = None          # (data, pixel_size at fit time, ops after)
     after = []
     fits_ext = []
